@@ -18,7 +18,8 @@ RULE = (
     "tokens share a class by design, DESIGN 8.5): create a lock (no token / explicit token A or B), copy a handle via "
     "pickle / cloudpickle / copy.copy / copy.deepcopy with 1-4 hops, non-blocking acquire through any handle from the main "
     "thread or from a helper thread (joined: deterministic), release through any handle, `with` block through a handle, "
-    "drop a handle (+ gc.collect()). Oracle after every op: acquire(blocking=False) returns True iff the model says the "
+    "drop a handle (+ gc.collect()), dump a handle to bytes, load a stored payload (also after every handle of that lock is gone: "
+    "then the first load makes a fresh lock and later loads of the same payload must join it). Oracle after every op: acquire(blocking=False) returns True iff the model says the "
     "class is free; locked() on EVERY live handle equals the model state of its class; classes never interfere. enum: all "
     "histories up to length 4 (quick) / 5 over a 10-op alphabet; hyp: random histories to 14 ops. Non-trivial: acquire "
     "through one copy and contend through another copy obtained by >= 2 hops."
@@ -50,14 +51,25 @@ def do_copy(h, method, hops):
 def check(case):
     from dask.utils import SerializableLock
 
-    handles = []  # (lock, class id) or None when dropped
+    handles = []  # (lock, class id, lineage) or None when dropped
     held = {}  # class id -> bool
     counter = itertools.count()
-    token_class = {}
-    acquired_by = []  # handles used to acquire (for cleanup)
+    lineage_class = {}  # lineage (explicit token / anonymous creation) -> its current class
+    payloads = []  # (bytes, method, lineage): serialized locks that outlive their handles
+    anon = itertools.count()
 
     def live(cls):
         return [h for h in handles if h is not None and h[1] == cls]
+
+    def current_class(lineage):
+        """The class a lock of this lineage joins when it comes to life now: the class of the live
+        handles with that token, or - if none is left in the process - a fresh, free lock."""
+        c = lineage_class.get(lineage)
+        if c is None or not live(c):
+            c = next(counter)
+            held[c] = False
+            lineage_class[lineage] = c
+        return c
 
     def verify(where):
         for idx, h in enumerate(handles):
@@ -67,6 +79,7 @@ def check(case):
                 st_ = h[0].locked()
             ensure(st_ == held[h[1]], f"{where}: handle {idx} (class {h[1]}) locked()={st_}, model says {held[h[1]]}", "locked-disagrees")
 
+    lk = src = new = None
     try:
         for step, op in enumerate(case["ops"]):
             where = f"step {step} {op}"
@@ -75,31 +88,44 @@ def check(case):
                 tok = op[1]
                 with impl("SerializableLock()"):
                     lk = SerializableLock(tok) if tok else SerializableLock()
-                if tok and tok in token_class and live(token_class[tok]):
-                    cls = token_class[tok]
-                else:
-                    cls = next(counter)
-                    held[cls] = False
-                    if tok:
-                        token_class[tok] = cls
-                handles.append((lk, cls))
+                lineage = tok if tok else f"anon{next(anon)}"
+                handles.append((lk, current_class(lineage), lineage))
             elif kind == "copy":
                 if not any(h is not None for h in handles):
                     continue
                 idx = op[1] % len(handles)
                 if handles[idx] is None:
                     continue
-                src, cls = handles[idx]
+                src, cls, lineage = handles[idx]
                 with impl("copy lock", method=op[2]):
                     new = do_copy(src, op[2], op[3])
-                handles.append((new, cls))
+                handles.append((new, cls, lineage))
+            elif kind == "dump":
+                if not handles:
+                    continue
+                idx = op[1] % len(handles)
+                if handles[idx] is None:
+                    continue
+                import cloudpickle
+
+                with impl("dumps lock", method=op[2]):
+                    payloads.append(((pickle if op[2] == "pickle" else cloudpickle).dumps(handles[idx][0]), op[2], handles[idx][2]))
+            elif kind == "load":
+                if not payloads:
+                    continue
+                data, method, lineage = payloads[op[1] % len(payloads)]
+                import cloudpickle
+
+                with impl("loads lock", method=method):
+                    new = (pickle if method == "pickle" else cloudpickle).loads(data)
+                handles.append((new, current_class(lineage), lineage))
             elif kind in ("acquire", "acquire_thread"):
                 if not handles:
                     continue
                 idx = op[1] % len(handles)
                 if handles[idx] is None:
                     continue
-                lk, cls = handles[idx]
+                lk, cls = handles[idx][:2]
                 if kind == "acquire":
                     with impl("acquire(blocking=False)"):
                         got = lk.acquire(False)
@@ -128,7 +154,7 @@ def check(case):
                 idx = op[1] % len(handles)
                 if handles[idx] is None or held[handles[idx][1]]:
                     continue  # would block
-                lk, cls = handles[idx]
+                lk, cls = handles[idx][:2]
                 with impl("with lock"):
                     with lk:
                         held[cls] = True
@@ -144,6 +170,7 @@ def check(case):
                 if held[cls] and len(live(cls)) == 1:
                     continue  # keep at least one handle of a held lock (else it could never be released)
                 handles[idx] = None
+                lk = src = new = None  # no stray reference of the harness may keep a dropped lock alive
                 gc.collect()
             verify(where)
     finally:
@@ -164,7 +191,8 @@ def nontrivial(case):
     ops = case["ops"]
     copies = [op for op in ops if op[0] == "copy"]
     acq = [op for op in ops if op[0] in ("acquire", "acquire_thread")]
-    return len(acq) >= 2 and any(c[3] >= 2 for c in copies) or (len(acq) >= 2 and len(copies) >= 2)
+    loads = [op for op in ops if op[0] == "load"]
+    return len(acq) >= 2 and (any(c[3] >= 2 for c in copies) or len(copies) >= 2 or len(loads) >= 2)
 
 
 def classes(case):
@@ -175,6 +203,25 @@ def classes(case):
             yield "create-token" if op[1] else "create-anon"
         else:
             yield op[0]
+
+
+def payload_cases(tier):
+    """serialized payloads that outlive the lock they were made from: dump, drop every handle, load several times"""
+    tail = [
+        ["load", 0],
+        ["acquire", 1],
+        ["acquire", 2],
+        ["acquire_thread", 2],
+        ["release", 1],
+        ["drop", 1],
+        ["acquire", 3],
+    ]
+    maxlen = 4 if tier == "quick" else 5
+    for first in (["create", None], ["create", "tA"]):
+        for prefix in ([["dump", 0, "pickle"], ["drop", 0], ["load", 0]], [["dump", 0, "cloudpickle"], ["load", 0], ["drop", 0]], [["dump", 0, "pickle"], ["load", 0]]):
+            for n in range(1, maxlen + 1):
+                for combo in itertools.product(range(len(tail)), repeat=n):
+                    yield {"ops": [first] + prefix + [tail[c] for c in combo]}
 
 
 def enum_cases(tier):
@@ -201,11 +248,13 @@ def enum_cases(tier):
 def history(draw):
     ops = [["create", draw(st.sampled_from([None, "tA", "tB"]))]]
     for _ in range(draw(st.integers(2, 14))):
-        k = draw(st.sampled_from(["create", "copy", "copy", "copy", "acquire", "acquire", "acquire_thread", "release", "with", "drop"]))
+        k = draw(st.sampled_from(["create", "copy", "copy", "copy", "acquire", "acquire", "acquire_thread", "release", "with", "drop", "drop", "dump", "load", "load"]))
         if k == "create":
             ops.append(["create", draw(st.sampled_from([None, None, "tA", "tB"]))])
         elif k == "copy":
             ops.append(["copy", draw(st.integers(0, 9)), draw(st.sampled_from(METHODS)), draw(st.integers(1, 4))])
+        elif k == "dump":
+            ops.append(["dump", draw(st.integers(0, 9)), draw(st.sampled_from(["pickle", "cloudpickle"]))])
         else:
             ops.append([k, draw(st.integers(0, 9))])
     return {"ops": ops}
@@ -213,5 +262,6 @@ def history(draw):
 
 SUBCHECKS = [
     Sub("enum", check, kind="enum", cases=enum_cases, nontrivial=nontrivial, classes=classes, exhaustive=True, shards=1, doc="all histories up to length 4 (quick) / 5 over a 10-op alphabet"),
+    Sub("payloads", check, kind="enum", cases=payload_cases, nontrivial=nontrivial, classes=classes, exhaustive=True, shards=8, doc="dump a lock, drop handles, load the payload repeatedly, contend: create, dump, (drop,) load followed by every tail up to length 4 (quick) / 5 over a 7-op alphabet"),
     Sub("histories", check, strategy=lambda tier: history(), n={"quick": 3000, "thorough": 60000}, nontrivial=nontrivial, classes=classes, shards=4, doc="random histories up to 15 ops"),
 ]
